@@ -69,7 +69,7 @@ EmbT(n, t)     == <<n, <<t>>, ST(n), TRUE>>         \* embedded struct with a js
 EmbC(n, l)     == <<n, <<n, l>>, ST(n), TRUE>>      \* embedded struct, untagged
 
 StructNames == {"ZvLeaf", "ZvOdd", "ZvBox", "ZvBase", "ZvDeep", "ZvBase2", "ZvNode", "ZvWrap", "ZvHost",
-                "ZvPair", "ZvEmb", "ZvL4", "ZvL3", "ZvL2", "ZvTower", "ZvTwin", "ZvCrew",
+                "ZvPair", "ZvEmb", "ZvL4", "ZvL3", "ZvL2", "ZvTower", "ZvTwin", "ZvCrew", "ZvPriv",
                 "Person", "Event", "Wings", "Plane", "Snoopy", "Hornet", "Hellcat", "Weather",
                 "SetOfPlanes", "NestOuter", "NestInner"}
 
@@ -78,7 +78,9 @@ StructDecl(S) ==
                           Tag("F", "f", B("float64")), Tag("S", "s", B("string")), Tag("B", "b", B("bool")),
                           Cap("Plain", "plain", B("string")) >>
     [] S = "ZvOdd"  -> << Tag("I8", "i8", B("int8")), Tag("U", "u", B("uint")), Tag("U8", "u8", B("uint8")),
-                          Tag("F32", "f32", B("float32")), Tag("R", "r", B("int32")) >>
+                          Tag("F32", "f32", B("float32")), Tag("R", "r", B("int32")),
+                          Tag("I16", "i16", B("int16")), Tag("U32", "u32", B("uint32")), Tag("U64", "u64", B("uint64")),
+                          Tag("D", "d", B("dur")), Tag("Col", "col", B("nstring")), Tag("Temp", "temp", B("nfloat64")) >>
     [] S = "ZvBox"  -> << Tag("Ints", "ints", SL(B("int"))), Tag("Strs", "strs", SL(B("string"))),
                           Tag("Flts", "flts", SL(B("float64"))), Tag("Raw", "raw", BYT), Tag("When", "when", TM),
                           Tag("SS", "ss", MP("string", B("string"))), Tag("SF", "sf", MP("string", B("float64"))),
@@ -106,6 +108,9 @@ StructDecl(S) ==
     [] S = "ZvTwin" -> << Tag("N", "n", B("string")), Tag("K", "k", B("int64")) >>
     [] S = "ZvCrew" -> << Tag("Call", "call", B("string")), Tag("Cap", "cap", P("ZvTwin")), Tag("Rel", "rel", IFc("ZvAny")),
                           Tag("Nest", "nest", P("NestOuter")) >>
+    (* an unexported field: the converter writes it (unsafe), so it must come back too *)
+    [] S = "ZvPriv" -> << Tag("Name", "name", B("string")), <<"cache", <<"cache", "cache">>, B("int64"), FALSE>>,
+                          Tag("N", "n", B("int")) >>
     (* the library's demo structs (zygo/demo_go_structs.go) *)
     [] S = "Person" -> << Tag("First", "first", B("string")), Tag("Last", "last", B("string")) >>
     [] S = "Event"  -> << Tag("Id", "id", B("int")), Tag("User", "user", ST("Person")), Tag("Flight", "flight", B("string")),
@@ -130,7 +135,7 @@ StructOf(S) == StructTab[S]
 (* registered record type name -> struct *)
 RegNames == {"zvleaf", "zvodd", "zvbox", "zvnode", "zvwrap", "zvhost", "zvpair", "zvemb", "zvtower",
              "persondemo", "eventdemo", "snoopy", "hornet", "hellcat", "weather", "plane", "setOfPlanes",
-             "nestouter", "nestinner", "zvtwin", "zvcrew",
+             "nestouter", "nestinner", "zvtwin", "zvcrew", "zvpriv",
              "ZvTwin", "NestOuter", "NestInner"}
 (* the second names of the types registered under two names: RegisterUserdef(rt, true, first, second) *)
 SecondNames == {"ZvTwin", "NestOuter", "NestInner"}
@@ -140,7 +145,7 @@ RegOf(n) ==
     [] n = "persondemo" -> "Person" [] n = "eventdemo" -> "Event" [] n = "snoopy" -> "Snoopy"
     [] n = "hornet" -> "Hornet" [] n = "hellcat" -> "Hellcat" [] n = "weather" -> "Weather" [] n = "plane" -> "Plane"
     [] n = "setOfPlanes" -> "SetOfPlanes" [] n = "nestouter" -> "NestOuter" [] n = "nestinner" -> "NestInner"
-    [] n = "zvtwin" -> "ZvTwin" [] n = "zvcrew" -> "ZvCrew"
+    [] n = "zvtwin" -> "ZvTwin" [] n = "zvcrew" -> "ZvCrew" [] n = "zvpriv" -> "ZvPriv"
     [] n = "ZvTwin" -> "ZvTwin" [] n = "NestOuter" -> "NestOuter" [] n = "NestInner" -> "NestInner"
     [] OTHER -> ""
 (* the name a Go value of struct S comes back under: the FIRST name its type was registered with *)
@@ -158,7 +163,7 @@ PkgOf(S) == IF S \in {"Person", "Event", "Wings", "Plane", "Snoopy", "Hornet", "
 Aliases(S, loose) == IF S \in loose THEN AllNamesTab[S] ELSE {RegNameOf(S)}
 
 IfaceNames == {"ZvAny", "Flyer"}
-Impl(I) == CASE I = "ZvAny" -> {"ZvLeaf", "ZvOdd", "ZvBox", "ZvNode", "ZvWrap", "ZvPair", "ZvEmb", "ZvTower", "ZvTwin", "ZvCrew"}
+Impl(I) == CASE I = "ZvAny" -> {"ZvLeaf", "ZvOdd", "ZvBox", "ZvNode", "ZvWrap", "ZvPair", "ZvEmb", "ZvTower", "ZvTwin", "ZvCrew", "ZvPriv"}
              [] I = "Flyer" -> {"Snoopy", "Hornet", "Hellcat"}
              [] OTHER -> {}
 
@@ -176,9 +181,10 @@ FlatKeysOf(S) ==
 FlatTab == [S \in StructNames |-> FlatKeysOf(S)]
 FlatKeys(S) == FlatTab[S]
 
-IntKinds  == {"int", "int8", "int32", "int64"}
-UintKinds == {"uint", "uint8"}
-FloatKinds == {"float64", "float32"}
+IntKinds  == {"int", "int8", "int16", "int32", "int64"}
+UintKinds == {"uint", "uint8", "uint32", "uint64"}
+FloatKinds == {"float64", "float32", "nfloat64"}    \* nfloat64 / nstring: NAMED types (type Celsius float64, type Color string)
+StringKinds == {"string", "nstring"}               \* dur: time.Duration
 
 (* ------------------------------------------------------------------ palette facts *)
 (* the float palette of the generators: spelling (strconv 'g') -> integral?, truncation toward zero *)
@@ -188,6 +194,8 @@ FltTrunc(s) == CASE s = "1.5" -> 1 [] s = "-0.25" -> 0 [] s = "2" -> 2 [] s = "0
                  [] s = "4" -> 4 [] s = "-3" -> -3 [] OTHER -> 0
 
 InRange(n, k) == CASE k = "int8" -> n >= -128 /\ n <= 127
+                   [] k = "int16" -> n >= -32768 /\ n <= 32767
+                   [] k \in {"uint32", "uint64"} -> n >= 0
                    [] k = "uint8" -> n >= 0 /\ n <= 255
                    [] k = "uint" -> n >= 0
                    [] OTHER -> TRUE
@@ -199,28 +207,38 @@ NoOpts == [wrap |-> FALSE, trunc |-> FALSE, nouint |-> FALSE]
 None == <<"none">>
 
 (* a script value into a basic kind: the Go value, or None (wrong kind => error) *)
+(* Further script values: <<"uint", n>> (10ULL), <<"bigint", digits>> (an integer beyond 2^30, *)
+(* as decimal text), <<"dur", text>> (a duration), <<"opaque", text>> (a value no Go field can *)
+(* hold: a regexp, a type value, a channel ...).                                               *)
+(* integers a float64 cannot hold exactly; floats a float32 cannot hold (palette of the generators) *)
+InexactInFloat64 == {"9007199254740993"}
+TooBigForFloat32 == {"1e+300"}
 FillBasic(v, k, o) ==
     IF k \in IntKinds THEN
         IF v[1] = "int" THEN (IF InRange(v[2], k) THEN <<"int", v[2]>>
                               ELSE IF o.wrap /\ k = "int8" THEN <<"int", Wrap8(v[2])>> ELSE None)
+        ELSE IF v[1] = "bigint" /\ k \in {"int", "int64"} THEN v
         ELSE IF v[1] = "chr" /\ k = "int32" THEN <<"int", v[2]>>
         ELSE IF v[1] = "flt" /\ k = "int64" /\ o.trunc THEN <<"int", FltTrunc(v[2])>>
         ELSE None
     ELSE IF k \in UintKinds THEN
-        IF v[1] = "int" /\ InRange(v[2], k) /\ ~o.nouint THEN <<"int", v[2]>> ELSE None
-    ELSE IF k = "float64" THEN
-        IF v[1] = "flt" THEN v ELSE IF v[1] = "int" THEN <<"flt", ToString(v[2])>> ELSE None
+        IF v[1] \in {"int", "uint"} /\ InRange(v[2], k) /\ ~o.nouint THEN <<"int", v[2]>> ELSE None
+    ELSE IF k \in {"float64", "nfloat64"} THEN
+        IF v[1] = "flt" THEN v ELSE IF v[1] = "int" THEN <<"flt", ToString(v[2])>>
+        ELSE None                             \* also a bigint: only inexact ones are generated
     ELSE IF k = "float32" THEN
-        IF v[1] = "flt" THEN v ELSE None
-    ELSE IF k = "string" THEN (IF v[1] = "str" THEN v ELSE None)
+        IF v[1] = "flt" /\ v[2] \notin TooBigForFloat32 THEN v ELSE None
+    ELSE IF k \in StringKinds THEN (IF v[1] = "str" THEN v ELSE None)
     ELSE IF k = "bool" THEN (IF v[1] = "bool" THEN v ELSE None)
+    ELSE IF k = "dur" THEN (IF v[1] = "dur" THEN v ELSE None)
     ELSE None
 
 RECURSIVE Zero(_), ZeroFields(_, _)
 Zero(T) ==
     CASE T[1] = "basic" -> (IF T[2] \in IntKinds \cup UintKinds THEN <<"int", 0>>
                             ELSE IF T[2] \in FloatKinds THEN <<"flt", "0">>
-                            ELSE IF T[2] = "string" THEN <<"str", "">> ELSE <<"bool", FALSE>>)
+                            ELSE IF T[2] \in StringKinds THEN <<"str", "">>
+                            ELSE IF T[2] = "dur" THEN <<"dur", "0s">> ELSE <<"bool", FALSE>>)
       [] T[1] = "struct" -> <<"struct", T[2], ZeroFields(StructOf(T[2]), 1)>>
       [] T[1] = "ptr" -> <<"nilptr">>
       [] T[1] = "iface" -> <<"niliface">>
@@ -358,7 +376,8 @@ BackStruct(gs, objs) == <<"rec", RegNameOf(gs[2]), BackFields(StructOf(gs[2]), g
 MatchOpts(drop, loose) == [drop |-> drop, loose |-> loose]
 (* field kinds whose value the pinned code hands back as nil (named deviation back-drops-field-kinds) *)
 Dropped(T) == \/ T[1] \in {"slice", "map", "time", "struct"}
-              \/ T[1] = "basic" /\ T[2] \in {"int8", "uint", "uint8", "float32"}
+              \/ T[1] = "basic" /\ T[2] \in {"int8", "int16", "uint", "uint8", "uint32", "uint64", "float32",
+                                            "dur", "nstring", "nfloat64"}
 
 (* r: a record as projected by the harness                                                    *)
 (*   <<"int",n>> <<"flt",s>> <<"str",s>> <<"bool",b>> <<"nil">> <<"raw",bs>> <<"time",k>>     *)
@@ -394,6 +413,40 @@ MatchFields(fl, vals, i, objs, pairs, m) ==
           ELSE \E p \in 1..Len(pairs) : /\ pairs[p][1] = FLabel(fl[i])
                                         /\ MatchB(vals[i], FType(fl[i]), objs, pairs[p][2], m)
        /\ MatchFields(fl, vals, i + 1, objs, pairs, m)
+
+(* ------------------------------------------------------------------ identity of the records handed back *)
+(* Occ: the records a Go value comes back as, in the order a depth-first walk in declaration order meets *)
+(* them (shared records unfolded: met again, walked again), each named by the Go object it stands for:  *)
+(* <<"o", id>> for an object reached through a pointer or an interface, <<"v", parent, path>> for a     *)
+(* struct held by value.  Two occurrences must be ONE record exactly when they have the same name: one  *)
+(* Go object is one record, as one record was one Go object on the way in.                              *)
+RECURSIVE OccT(_, _, _, _, _, _), OccFields(_, _, _, _, _, _, _), OccSeq(_, _, _, _, _, _, _), OccMap(_, _, _, _, _, _, _)
+OccObj(id, objs, drop) ==
+    LET tok == <<"o", id>> IN <<tok>> \o OccFields(StructOf(objs[id][2]), objs[id][3], 1, objs, tok, <<>>, drop)
+OccT(g, T, objs, par, path, drop) ==
+    IF drop /\ Dropped(T) THEN <<>>
+    ELSE CASE T[1] = "slice" -> OccSeq(g[2], 1, T[2], objs, par, path, drop)
+           [] T[1] = "map" -> OccMap(g[2], 1, T[3], objs, par, path, drop)
+           [] T[1] = "struct" -> (LET tok == <<"v", par, path>>
+                                  IN <<tok>> \o OccFields(StructOf(g[2]), g[3], 1, objs, tok, <<>>, drop))
+           [] T[1] = "ptr" -> (IF g[1] = "nilptr" THEN <<>> ELSE OccObj(g[2], objs, drop))
+           [] T[1] = "iface" -> (IF g[1] = "niliface" THEN <<>> ELSE OccObj(g[2][2], objs, drop))
+           [] OTHER -> <<>>
+OccSeq(gs, i, T, objs, par, path, drop) ==
+    IF i > Len(gs) THEN <<>>
+    ELSE OccT(gs[i], T, objs, par, Append(path, i), drop) \o OccSeq(gs, i + 1, T, objs, par, path, drop)
+OccMap(ps, i, V, objs, par, path, drop) ==
+    IF i > Len(ps) THEN <<>>
+    ELSE OccT(ps[i][2], V, objs, par, Append(path, i), drop) \o OccMap(ps, i + 1, V, objs, par, path, drop)
+OccFields(fl, vals, i, objs, par, path, drop) ==
+    IF i > Len(fl) THEN <<>>
+    ELSE (IF FEmb(fl[i]) THEN OccFields(StructOf(FType(fl[i])[2]), vals[i][3], 1, objs, par, Append(path, i), drop)
+          ELSE OccT(vals[i], FType(fl[i]), objs, par, Append(path, i), drop))
+         \o OccFields(fl, vals, i + 1, objs, par, path, drop)
+(* h: the identities the harness saw (numbers, in first-visit order) along the same walk *)
+SamePattern(s, h) == /\ Len(s) = Len(h)
+                     /\ \A i \in 1..Len(s) : \A j \in 1..Len(s) : (s[i] = s[j]) = (h[i] = h[j])
+AllDistinct(h) == \A i \in 1..Len(h) : \A j \in 1..Len(h) : i # j => h[i] # h[j]
 
 (* a struct value (and everything reachable from it through pointers) has an embedded field *)
 RECURSIVE HasNil(_)
